@@ -17,6 +17,9 @@ ORACLE         an executable specification of the masking rule in plain numpy on
                IMF, amplitudes recomputed from the returned columns, every column == the specification on the traced residual;
                byte equality of get_next_imf_mask and mask_sift results across nprocesses
 Only imf_opts are passed (never envelope_opts / extrema_opts): forwarding of those is C06's subject.
+FINDING        C07-numpy-scalar-amplitude (notes/fixes/C07-numpy-scalar-amplitude.diff): a scalar amplitude given as a numpy scalar other
+               than np.float64 (np.float32, np.int64, 0-d array) was indexed like an array -> IndexError; model keeps amp_of_v0 /
+               mask_sift_v0 and Prop_C07.mask_sift_numpy_scalar_v0_refuted.  Problems of this kind carry tags defect=numpy-scalar-amplitude.
 """
 import contextlib
 import types
@@ -638,7 +641,7 @@ def run(ctx):
                 bad.append(('mask_sift', inp, got, exp))
 
     # ---- (b), (d) and the oracle: get_next_imf_mask on real numerics
-    nreal = 40 if quick else 320
+    nreal = 40 if quick else 400
     sigs = siftcore.real_signals(ctx.seed + 7, nreal, 32, 160)
     for i, (fam, x) in enumerate(sigs):
         imf_opts = siftcore.real_opts(ctx.rng)[0]
@@ -660,7 +663,7 @@ def run(ctx):
 
     # ---- (c), (d) and the oracle: mask_sift on real numerics
     combos = [(s, m, arr) for s in ('zc', 'if', 'float', 'list') for m in ('abs', 'ratio_sig', 'ratio_imf') for arr in (False, True)]
-    reps = 1 if quick else 3
+    reps = 1 if quick else 5
     sigs = siftcore.real_signals(ctx.seed + 11, len(combos) * reps + 8, 48, 200)
     sigs = [s for s in sigs if s[0] not in ('const-ramp',)][:len(combos) * reps]
     for i, (fam, x) in enumerate(sigs):
